@@ -88,7 +88,9 @@ func execIP2A(args []string) string {
 // net2p: args = ip, mask, fam, probes
 func execNet2P(args []string) string {
 	ipb, mb := optBytes(args[0]), optBytes(args[1])
-	mk := func() *net.IPNet { return &net.IPNet{IP: net.IP(slices.Clone(ipb)), Mask: net.IPMask(slices.Clone(mb))} }
+	mk := func() *net.IPNet {
+		return &net.IPNet{IP: net.IP(slices.Clone(ipb)), Mask: net.IPMask(slices.Clone(mb))}
+	}
 	subnet := mk()
 	var p netip.Prefix
 	var err error
@@ -132,6 +134,13 @@ type customAddr struct{}
 func (customAddr) Network() string { return "custom" }
 func (customAddr) String() string  { return "1.2.3.4:5" }
 
+// apAddr is a net.Addr of a kind of its own that has an AddrPort method (what NetAddrToAddrPort looks for)
+type apAddr struct{ t *net.TCPAddr }
+
+func (a apAddr) Network() string          { return "ap" }
+func (a apAddr) String() string           { return a.t.String() }
+func (a apAddr) AddrPort() netip.AddrPort { return a.t.AddrPort() }
+
 // na2ap: args = kind, ip, zone, port
 func execNA2AP(args []string) string {
 	ip := net.IP(optBytes(args[1]))
@@ -147,6 +156,8 @@ func execNA2AP(args []string) string {
 		a = &net.IPAddr{IP: ip, Zone: zone}
 	case "unix":
 		a = &net.UnixAddr{Name: "/tmp/x", Net: "unix"}
+	case "capk":
+		a = apAddr{&net.TCPAddr{IP: ip, Port: port, Zone: zone}}
 	case "tcpnil":
 		a = (*net.TCPAddr)(nil)
 	default:
@@ -345,7 +356,7 @@ func genC12(g *G) {
 	g.Emit("net2p", "0a010000", "-", "4", "0a010000")
 	g.Emit("net2p", "nil", "ffff0000", "4", "0a010000")
 	// net.Addr kinds
-	kinds := []string{"tcp", "udp", "tcp", "udp", "ip", "unix", "custom", "tcpnil"}
+	kinds := []string{"tcp", "udp", "tcp", "udp", "ip", "unix", "custom", "tcpnil", "capk", "capk"}
 	zones := []string{"-", "-", HS("eth0"), HS("1")}
 	for i := 0; i < g.N(6000, 100000); i++ {
 		port := []int{0, 1, 53, 65535, 65536, 70000, -1, g.Rnd.IntN(65536)}[g.Rnd.IntN(8)]
